@@ -193,6 +193,22 @@ class World:
                 world.ctx[lab] = prev
         ce.process_cell = process_cell
 
+        # the real cryptography decides whether a relayed cell can be re-encrypted / peeled (a duplicated cell
+        # fails the AEAD replay check): that outcome is an input of the model
+        def crypto_tap(orig):
+            def wrapped(cell, direction, *hops):
+                try:
+                    return orig(cell, direction, *hops)
+                except Exception:
+                    rec = world.ctx[lab]
+                    if rec is not None and rec["k"] == "cell" and rec["relay"]:
+                        rec["ok"] = False
+                        world.count("relay:crypto-reject")
+                    raise
+            return wrapped
+        ce.decrypt_cell = crypto_tap(ce.decrypt_cell)
+        ce.encrypt_cell = crypto_tap(ce.encrypt_cell)
+
         orig_pfc = ov.on_packet_from_circuit
 
         def on_packet_from_circuit(source, data, circuit_id):
